@@ -37,6 +37,15 @@ class GainLinear(nn.Linear):
         self.gain = nn.Parameter(torch.ones(2), requires_grad=False)
 
 
+class Outer:
+    class Proj(nn.Linear):
+        """A supported layer class declared inside another class: its
+        __name__ is 'Proj', its __qualname__ 'Outer.Proj'."""
+
+        def __init__(self):
+            super().__init__(3, 2)
+
+
 class Box(nn.Module):
     def __init__(self, kids):
         super().__init__()
@@ -45,7 +54,7 @@ class Box(nn.Module):
 
 
 LEAVES = ['Lin', 'LinNB', 'SubLin', 'LinChild', 'Conv2d', 'Conv1d', 'ReLU',
-          'Frozen', 'HalfFrozen', 'Shared', 'Emb', 'BN', 'NoneSlot', 'TiedF', 'GainF']
+          'Frozen', 'HalfFrozen', 'Shared', 'Emb', 'BN', 'NoneSlot', 'TiedF', 'GainF', 'Proj']
 CONTAINERS = ['Seq', 'Dict', 'Box']
 
 
@@ -79,6 +88,8 @@ def mk_leaf(kind, shared):
         return shared
     if kind == 'GainF':
         return GainLinear()
+    if kind == 'Proj':
+        return Outer.Proj()
     if kind == 'TiedF':
         # distinct instances sharing one frozen weight parameter (tied
         # weights): named_parameters() reports it under the first owner only
@@ -204,11 +215,39 @@ def tree_case(part, item):
                 break
         if len(exp) >= 1 and len(list(model.modules())) - len(exp) >= 1:
             part.seen('nontrivial', (repr(tree), tuple(skip)))
+        # the SAME model instance edited (first child replaced by a new
+        # layer, one layer added) and registered again: the second
+        # registration must see the tree as it is now
+        kids = list(model._modules.items())
+        if skip == skips[0] and kids and not isinstance(tree, str):
+            setattr(model, kids[0][0], nn.Linear(3, 2)) if not isinstance(
+                model, (nn.Sequential, nn.ModuleDict)) else \
+                model.__setitem__(0 if isinstance(model, nn.Sequential)
+                                  else kids[0][0], nn.Linear(3, 2))
+            model.add_module('zz_new', nn.Conv2d(1, 2, 2))
+            part.count('evaluations')
+            try:
+                p2 = KFACPreconditioner(model, skip_layers=list(skip))
+            except Exception as e:  # noqa
+                part.violation(f'exception:{type(e).__name__}',
+                               f'tree={tree} re-registration: {e}', det)
+                continue
+            got2 = sorted((name, id(mod))
+                          for mod, (name, _) in p2._layers.items())
+            exp2 = sorted((n, id(m)) for n, m in ref_registration(model,
+                                                                   skip))
+            if got2 != exp2:
+                part.violation(
+                    'registered-set',
+                    f'tree={tree} skip={skip}: after replacing the first '
+                    f'child and adding a layer, a second registration of '
+                    f'the same model registered {[n for n, _ in got2]} '
+                    f'expected {[n for n, _ in exp2]}', det)
 
 
 SKIPS = [(), ('linear',), ('Linear',), ('^0$',), ('1',), (r'\.0$',),
          ('Conv',), ('a|b',), ('^$',), ('x', 'Sub'), (r'^a\.', 'Conv2d'),
-         ('y$', '^Lin')]
+         ('y$', '^Lin'), ('^Proj$',), ('Outer',)]
 
 
 # ------------------------------------------------------------- GPT-NeoX
@@ -349,12 +388,12 @@ def main(run: core.Run):
     run.c['transitions'] = run.c.get('evaluations', 0)
     run.c['distinct_nontrivial'] = len(run.distinct.get('nontrivial', ()))
     run.rule = (
-        f'every module tree with <= {maxn} nodes over 15 leaf kinds (Linear '
+        f'every module tree with <= {maxn} nodes over 16 leaf kinds (Linear '
         '+/- bias, Linear subclasses with and without a child, Conv2d, '
         'Conv1d, Embedding, BatchNorm2d, ReLU, frozen and half-frozen Linear,'
         ' one shared instance mounted repeatedly, distinct instances tied to one frozen weight, a subclass with a frozen extra parameter) and 3 container kinds x '
         f'{len(skips)} skip-pattern lists; registered (name, instance) set '
-        'compared with an independent pre-order walk; hook counts on every '
+        'compared with an independent pre-order walk, also for a second registration after the same model instance was edited; hook counts on every '
         'module; non-trivial = at least one registered and one unregistered '
         'module')
     run.sample({'tree': items[len(items) // 2][0], 'skip': list(skips[3])})
